@@ -26,6 +26,7 @@ type Engine struct {
 	inst        map[string][]*ssa.Function // generic contract key -> instantiations used by the program
 	effMemo     map[*ssa.Function]*effectSet
 	effDone     map[*ssa.Function]bool
+	viaGlobal   map[ssa.Instruction]string          // write sites that go through a value read from a package-level variable
 	effSites    map[*ssa.Function][]ssa.Instruction // write sites to pre-existing memory, per function
 	activeProp  string                              // when set, only clauses serving this property are used (assumed and checked)
 }
